@@ -29,6 +29,9 @@ pub enum HopKind {
     Mem,
     Json,
     Bincode,
+    /// in-memory channel whose client-side sink can be made not-ready by the harness
+    /// (readiness independent of flushing)
+    Gated,
 }
 
 #[derive(Clone, Copy, Debug, PartialEq, Eq, Hash, Serialize, Deserialize)]
@@ -40,6 +43,7 @@ pub enum Regime {
 pub const H_ABANDON: u32 = 1 << 0;
 pub const H_FINISH: u32 = 1 << 1;
 pub const H_REORDER: u32 = 1 << 2;
+pub const H_GATE: u32 = 1 << 3;
 
 #[derive(Clone, Debug, PartialEq, Eq, Hash, Serialize, Deserialize)]
 pub struct ChainCfg {
@@ -150,10 +154,17 @@ where
     }
 }
 
+#[derive(Default)]
+pub struct GateSt {
+    pub closed: Cell<bool>,
+    pub waker: RefCell<Option<Waker>>,
+}
+
 pub struct LogT<I, S> {
     inner: Pin<Box<dyn DynT<I, S>>>,
     log: Rc<Log>,
     side: u8,
+    gate: Option<Rc<GateSt>>,
 }
 
 impl<I: ToMsg, S> Stream for LogT<I, S> {
@@ -181,6 +192,12 @@ impl<I: ToMsg, S> Stream for LogT<I, S> {
 impl<I, S: ToMsg> Sink<S> for LogT<I, S> {
     type Error = io::Error;
     fn poll_ready(mut self: Pin<&mut Self>, cx: &mut Context<'_>) -> Poll<io::Result<()>> {
+        if let Some(g) = &self.gate {
+            if g.closed.get() {
+                *g.waker.borrow_mut() = Some(cx.waker().clone());
+                return Poll::Pending;
+            }
+        }
         self.inner.as_mut().ready(cx)
     }
     fn start_send(mut self: Pin<&mut Self>, item: S) -> io::Result<()> {
@@ -207,14 +224,23 @@ impl<I, S: ToMsg> Sink<S> for LogT<I, S> {
 type CT = LogT<Response<u32>, ClientMessage<u32>>;
 type ST = LogT<ClientMessage<u32>, Response<u32>>;
 
-fn mk_hop(kind: HopKind, hop: usize, log: &Rc<Log>, pipes: &mut Vec<Rc<RefCell<PipeBuf>>>) -> (CT, ST) {
+fn mk_hop(kind: HopKind, hop: usize, log: &Rc<Log>, pipes: &mut Vec<Rc<RefCell<PipeBuf>>>, gates: &mut Vec<(usize, Rc<GateSt>)>) -> (CT, ST) {
     let (cs, ss) = ((hop * 2) as u8, (hop * 2 + 1) as u8);
     match kind {
+        HopKind::Gated => {
+            let (c, s) = tarpc::transport::channel::unbounded();
+            let g = Rc::new(GateSt::default());
+            gates.push((hop, g.clone()));
+            (
+                LogT { inner: Box::pin(c), log: log.clone(), side: cs, gate: Some(g) },
+                LogT { inner: Box::pin(s), log: log.clone(), side: ss, gate: None },
+            )
+        }
         HopKind::Mem => {
             let (c, s) = tarpc::transport::channel::unbounded();
             (
-                LogT { inner: Box::pin(c), log: log.clone(), side: cs },
-                LogT { inner: Box::pin(s), log: log.clone(), side: ss },
+                LogT { inner: Box::pin(c), log: log.clone(), side: cs, gate: None },
+                LogT { inner: Box::pin(s), log: log.clone(), side: ss, gate: None },
             )
         }
         HopKind::Json | HopKind::Bincode => {
@@ -230,15 +256,15 @@ fn mk_hop(kind: HopKind, hop: usize, log: &Rc<Log>, pipes: &mut Vec<Rc<RefCell<P
                 let c = tarpc::serde_transport::new(cf, Json::<Response<u32>, ClientMessage<u32>>::default());
                 let s = tarpc::serde_transport::new(sf, Json::<ClientMessage<u32>, Response<u32>>::default());
                 (
-                    LogT { inner: Box::pin(c), log: log.clone(), side: cs },
-                    LogT { inner: Box::pin(s), log: log.clone(), side: ss },
+                    LogT { inner: Box::pin(c), log: log.clone(), side: cs, gate: None },
+                    LogT { inner: Box::pin(s), log: log.clone(), side: ss, gate: None },
                 )
             } else {
                 let c = tarpc::serde_transport::new(cf, Bincode::<Response<u32>, ClientMessage<u32>>::default());
                 let s = tarpc::serde_transport::new(sf, Bincode::<ClientMessage<u32>, Response<u32>>::default());
                 (
-                    LogT { inner: Box::pin(c), log: log.clone(), side: cs },
-                    LogT { inner: Box::pin(s), log: log.clone(), side: ss },
+                    LogT { inner: Box::pin(c), log: log.clone(), side: cs, gate: None },
+                    LogT { inner: Box::pin(s), log: log.clone(), side: ss, gate: None },
                 )
             }
         }
@@ -322,6 +348,8 @@ enum Ev {
     ScriptAbandon,
     Finish,
     Deliver(usize),
+    CloseGate(usize),
+    OpenGate(usize),
     Stop,
 }
 
@@ -341,6 +369,7 @@ pub struct World {
     st: RefCell<St>,
     ch: RefCell<Chooser>,
     pipes: Vec<Rc<RefCell<PipeBuf>>>,
+    gates: Vec<(usize, Rc<GateSt>)>,
     free: Cell<bool>,
     pending_delay: Cell<Option<(usize, u64)>>,
     state_hashes: RefCell<Vec<u64>>,
@@ -356,13 +385,14 @@ impl World {
             regime: observe,
         });
         let mut pipes = vec![];
+        let mut gates: Vec<(usize, Rc<GateSt>)> = vec![];
         let mut tasks: Vec<TaskSt> = vec![];
         let d = cfg.hops.len();
         let mut clients: Vec<client::Channel<u32, u32>> = vec![];
         let mut servers: Vec<ST> = vec![];
         let mut dispatches = vec![];
         for (i, k) in cfg.hops.iter().enumerate() {
-            let (ct, st) = mk_hop(*k, i, &log, &mut pipes);
+            let (ct, st) = mk_hop(*k, i, &log, &mut pipes, &mut gates);
             let nc = client::new::<u32, u32, CT>(client::Config::default(), ct);
             clients.push(nc.client);
             dispatches.push(nc.dispatch);
@@ -447,6 +477,7 @@ impl World {
             st: RefCell::new(St { tasks, head_done: false, head_abandoned: false, dead: false }),
             ch: RefCell::new(Chooser::new(prefix)),
             pipes,
+            gates,
             free: Cell::new(false),
             pending_delay: Cell::new(None),
             state_hashes: RefCell::new(vec![]),
@@ -500,11 +531,26 @@ impl World {
         }
         if nm_polls == 0 {
             m.extend(deliveries.clone());
+            // a closed gate reopens once nothing else can run (back-pressure is temporary)
+            for (k, (_, g)) in self.gates.iter().enumerate() {
+                if g.closed.get() {
+                    m.push(Ev::OpenGate(k));
+                }
+            }
         }
         let nm = m.len();
         if !self.free.get() {
             if nm_polls > 0 && self.has(H_REORDER) {
                 m.extend(deliveries);
+            }
+            if self.has(H_GATE) {
+                for (k, (_, g)) in self.gates.iter().enumerate() {
+                    if !g.closed.get() {
+                        m.push(Ev::CloseGate(k));
+                    } else if nm_polls > 0 {
+                        m.push(Ev::OpenGate(k));
+                    }
+                }
             }
             if self.has(H_ABANDON) {
                 let t = &st.tasks[0];
@@ -526,6 +572,9 @@ impl World {
             (t.name, t.fut.is_some() || t.stream.is_some(), t.flag.is_set(), t.polls, t.done).hash(&mut h);
         }
         (st.head_done, st.head_abandoned, self.sh.gate_open.get()).hash(&mut h);
+        for (_, g) in &self.gates {
+            g.closed.get().hash(&mut h);
+        }
         for p in &self.pipes {
             let b = p.borrow();
             // lengths depend on random span ids (decimal / varint widths): hash emptiness only
@@ -644,6 +693,14 @@ impl World {
             Ev::Finish => {
                 self.sh.gate_open.set(true);
                 if let Some(w) = self.sh.gate_waker.borrow_mut().take() {
+                    w.wake();
+                }
+            }
+            Ev::CloseGate(k) => self.gates[k].1.closed.set(true),
+            Ev::OpenGate(k) => {
+                let g = &self.gates[k].1;
+                g.closed.set(false);
+                if let Some(w) = g.waker.borrow_mut().take() {
                     w.wake();
                 }
             }
